@@ -4,8 +4,10 @@ package route
 
 import (
 	"fmt"
+	"math/bits"
 	"sort"
 	"strings"
+	"sync/atomic"
 	"testing"
 	"time"
 
@@ -41,7 +43,21 @@ func (c04rHealth) Register(string, time.Duration) {}
 func (c04rHealth) Unregister(string)              {}
 func (c04rHealth) Ready(string, bool)             {}
 
-const c04rTraceRate = 3
+// c04rStress is the scripted StressReliever of the real collector behind the router (an injected dependency).
+type c04rStress struct {
+	on   atomic.Bool
+	rate atomic.Uint64
+}
+
+func (s *c04rStress) Start() error      { return nil }
+func (s *c04rStress) UpdateFromConfig() {}
+func (s *c04rStress) Recalc() uint      { return 0 }
+func (s *c04rStress) Stressed() bool    { return s.on.Load() }
+func (s *c04rStress) GetSampleRate(string) (uint, bool, string) {
+	return uint(s.rate.Load()), true, "verif-stress"
+}
+
+var c04rDatasetRates = map[string]int{"ds3": 3, "ds10": 10, "ds1000": 1000}
 
 func c04rInt(v any) (int64, bool) {
 	switch x := v.(type) {
@@ -68,7 +84,7 @@ type c04rItem struct {
 func TestVerif_C04Route(t *testing.T) {
 	run := verifkit.Start(t, "C04", "route")
 	defer run.Finish()
-	run.Rule("seeded requests through the real router handlers: /1/batch bodies in JSON and msgpack with 2-9 events, each with its own samplerate key from {0,1,2,10,2^31-1,random} or none (JSON also a non-numeric one), all mixed in one body in PRNG order, events with and without a trace id; /1/events requests with the sample-rate header present, absent, 0 or garbage; traces decided by a real collector behind the router (deterministic sampler rate 3, trace ids chosen kept or dropped); non-trivial = one body holds an event without a rate AFTER an event with a rate > 1 and a later event with another rate; distinct = (endpoint, encoding, sequence of rate classes)")
+	run.Rule("seeded requests through the real router handlers: /1/batch bodies in JSON and msgpack with 2-9 events, each with its own samplerate key from {0,1,2,10,2^31-1,random} or none (JSON also a non-numeric one), all mixed in one body in PRNG order, events with and without a trace id; /1/events requests with the sample-rate header present, absent, 0 or garbage; traces decided by a real collector behind the router (deterministic sampler rate 3/10/1000 by dataset, trace ids chosen kept or dropped; in 15 % of the requests by stress relief at rate 100, 2^32, 2^32+7 or 2^40); everything handed upstream goes through a real DirectTransmission to a fake Honeycomb whose request bodies are decoded independently; non-trivial = one body holds an event without a rate AFTER an event with a rate > 1 and a later event with another rate; distinct = (endpoint, encoding, sequence of rate classes)")
 	run.Assume("the rate the client supplied for an event is what the harness wrote into that event's samplerate key / the request's header; absent, zero and non-numeric rates may be handed over as 0 or 1")
 	run.Assume("the real collector behind the router runs on the real clock (SendDelay 1 ms, SendTicker 2 ms); waiting for its output is bounded (5 s) and an expired bound is inconclusive")
 
@@ -77,25 +93,40 @@ func TestVerif_C04Route(t *testing.T) {
 		c.GetTracesConfigVal = tc
 		c.GetCollectionConfigVal = config.CollectionConfig{WorkerCount: 2, IncomingQueueSize: 10000, PeerQueueSize: 10000, ShutdownDelay: config.Duration(time.Millisecond), HealthCheckTimeout: config.Duration(time.Hour)}
 		c.SampleCache = config.SampleCacheConfig{KeptSize: 100000, DroppedSize: 100000, SizeCheckInterval: config.Duration(time.Hour)}
-		c.Samplers = map[string]*config.V2SamplerChoice{"__default__": {DeterministicSampler: &config.DeterministicSamplerConfig{SampleRate: c04rTraceRate}}}
-		c.GetSamplerTypeVal = &config.DeterministicSamplerConfig{SampleRate: c04rTraceRate}
-	}})
+		c.Samplers = map[string]*config.V2SamplerChoice{"__default__": {DeterministicSampler: &config.DeterministicSamplerConfig{SampleRate: 3}}}
+		for ds, r := range c04rDatasetRates { // legacy keys: the sampler key is the dataset
+			c.Samplers[ds] = &config.V2SamplerChoice{DeterministicSampler: &config.DeterministicSamplerConfig{SampleRate: r}}
+		}
+		c.GetSamplerTypeVal = &config.DeterministicSamplerConfig{SampleRate: 3}
+	}, Wire: true})
 	defer b.Close()
+	stress := &c04rStress{}
+	cm := &metrics.MockMetrics{} // the collector's own counters: used to know when it has decided everything it was handed
+	cm.Start()
+	decided := func() (applied, cacheHits float64) {
+		k, _ := cm.Get("trace_send_kept")
+		d, _ := cm.Get("trace_send_dropped")
+		h, _ := cm.Get("trace_sent_cache_hit")
+		return k + d, h
+	}
 	sf := &sample.SamplerFactory{Config: b.Cfg, Metrics: &metrics.NullMetrics{}, Logger: &logger.NullLogger{}}
 	if err := sf.Start(); err != nil {
 		t.Fatalf("sampler factory: %v", err)
 	}
 	coll := &collect.InMemCollector{Config: b.Cfg, Clock: clockwork.NewRealClock(), Logger: &logger.NullLogger{}, Tracer: noop.NewTracerProvider().Tracer("verif"),
-		Health: c04rHealth{}, Transmission: b.Upstream, PeerTransmission: b.PeerTx, Metrics: &metrics.NullMetrics{}, StressRelief: &collect.MockStressReliever{},
+		Health: c04rHealth{}, Transmission: b.Upstream, PeerTransmission: b.PeerTx, Metrics: cm, StressRelief: stress,
 		SamplerFactory: sf, Peers: peer.NewMockPeers([]string{"self"}, "self"), Sharder: &sharder.MockSharder{Self: &sharder.TestShard{Addr: "self"}}}
 	if err := coll.Start(); err != nil {
 		t.Fatalf("collector: %v", err)
 	}
 	defer func() { _ = coll.Stop(); sf.Stop() }()
 	b.Collector.SetInner(coll)
-	ref := &sample.DeterministicSampler{Config: &config.DeterministicSamplerConfig{SampleRate: c04rTraceRate}, Logger: &logger.NullLogger{}, Metrics: &metrics.NullMetrics{}}
-	_ = ref.Start()
-	keeps := func(id string) bool { _, k, _, _ := ref.GetSampleRate(&types.Trace{TraceID: id}); return k }
+	refs := map[int]*sample.DeterministicSampler{}
+	for _, r := range []int{3, 10, 1000} {
+		refs[r] = &sample.DeterministicSampler{Config: &config.DeterministicSamplerConfig{SampleRate: r}, Logger: &logger.NullLogger{}, Metrics: &metrics.NullMetrics{}}
+		_ = refs[r].Start()
+	}
+	keeps := func(rate int, id string) bool { _, k, _, _ := refs[rate].GetSampleRate(&types.Trace{TraceID: id}); return k }
 
 	nextID := 0
 	genRate := func(rng *verifkit.Rand) int64 {
@@ -113,7 +144,7 @@ func TestVerif_C04Route(t *testing.T) {
 		case 7:
 			return 1<<31 - 1
 		}
-		return int64(rng.Range(3, 100000))
+		return verifkit.Pick(rng, int64(rng.Range(3, 100000)), 65536, 1<<20, 1<<31-2, int64(rng.Int63()%(1<<31-3))+2)
 	}
 	cls := func(it c04rItem) string {
 		switch {
@@ -131,7 +162,22 @@ func TestVerif_C04Route(t *testing.T) {
 		b.Log.Reset()
 		enc := verifkit.Pick(rng, E3JSON, E3Msgpack, E3Msgpack)
 		encName := map[E3Encoding]string{E3JSON: "json", E3Msgpack: "msgpack"}[enc]
-		key := verifkit.Pick(rng, E3KeyEnv, E3KeyLegacy)
+		key := verifkit.Pick(rng, E3KeyEnv, E3KeyLegacy, E3KeyLegacy)
+		dataset, traceRate := "ds3", uint64(3)
+		if key == E3KeyLegacy {
+			dataset = verifkit.Pick(rng, "ds3", "ds10", "ds10", "ds1000")
+			traceRate = uint64(c04rDatasetRates[dataset])
+		}
+		detRate := int(traceRate)
+		stressed := rng.Chance(0.15)
+		if stressed { // every span of this request is decided by stress relief (ProcessSpanImmediately)
+			traceRate = verifkit.Pick(rng, uint64(100), 1<<32, 1<<32+7, 1<<40)
+			stress.rate.Store(traceRate)
+		}
+		for len(b.Wire.ch) > 0 { // tokens of events nobody waited for (earlier inconclusive case)
+			<-b.Wire.ch
+		}
+		b.Wire.Take()
 		batch := rng.Chance(0.75)
 		n := 1
 		if batch {
@@ -146,7 +192,7 @@ func TestVerif_C04Route(t *testing.T) {
 			if rng.Chance(0.7) {
 				for {
 					it.Trace = rng.Hex(32)
-					if it.Kept = keeps(it.Trace); it.Kept == rng.Chance(0.7) {
+					if it.Kept = keeps(detRate, it.Trace); it.Kept == rng.Chance(0.7) || (detRate == 1000 && it.Kept) {
 						break
 					}
 				}
@@ -170,7 +216,7 @@ func TestVerif_C04Route(t *testing.T) {
 				}
 				bitems = append(bitems, bi)
 			} else {
-				req, err := e3EventReq(E3Incoming, enc, "ds", key, data, it.Rate, "")
+				req, err := e3EventReq(E3Incoming, enc, dataset, key, data, it.Rate, "")
 				if err != nil {
 					t.Fatalf("build: %v", err)
 				}
@@ -186,20 +232,23 @@ func TestVerif_C04Route(t *testing.T) {
 			items[i] = it
 		}
 		if batch {
-			req, err := e3BatchReq(E3Incoming, enc, "ds", key, bitems)
+			req, err := e3BatchReq(E3Incoming, enc, dataset, key, bitems)
 			if err != nil {
 				t.Fatalf("build: %v", err)
 			}
 			reqs = append(reqs, req)
 		}
 		var statuses []int
+		stress.on.Store(stressed)
+		applied0, hits0 := decided()
 		for _, r := range reqs {
 			statuses = append(statuses, b.Serve(r).Status)
 		}
+		stress.on.Store(false)
 		// wait for the real collector to forward the kept traces (bounded)
 		wantUp := 0
 		for _, it := range items {
-			if it.Trace != "" && it.Kept {
+			if it.Trace != "" && (it.Kept || stressed) {
 				wantUp++
 			}
 		}
@@ -214,19 +263,32 @@ func TestVerif_C04Route(t *testing.T) {
 		}
 		handed := 0
 		for _, o := range b.Log.Effects() {
-			if o.Where == E3AtAddSpan && o.Result == "ok" {
+			if (o.Where == E3AtAddSpan && o.Result == "ok") || o.Where == E3AtImmediate {
 				handed++
 			}
 		}
 		complete := true
-		if handed > 0 {
+		if handed > 0 && !stressed {
+			// every span handed to the collector is its own trace: it is either decided (kept/dropped counters) or
+			// answered from the decision cache (cache hit: only possible through a false positive of the dropped-trace
+			// filter, since the ids are fresh). Wait for that, then for the kept spans to reach the transmission.
 			deadline := time.Now().Add(5 * time.Second)
-			for upstreamSpans() < wantUp && time.Now().Before(deadline) {
+			for time.Now().Before(deadline) {
+				a, h := decided()
+				if (a-applied0)+(h-hits0) >= float64(handed) && upstreamSpans() >= wantUp-int(h-hits0) {
+					break
+				}
 				time.Sleep(200 * time.Microsecond)
 			}
-			complete = upstreamSpans() >= wantUp
+			_, h := decided()
+			switch missing := wantUp - upstreamSpans(); {
+			case missing <= 0:
+			case float64(missing) <= h-hits0:
+				run.Count("kept_spans_swallowed_by_dropped_filter_false_positive", int64(missing))
+			default:
+				complete = false
+			}
 		}
-
 		endpoint := "event"
 		if batch {
 			endpoint = "batch"
@@ -263,16 +325,20 @@ func TestVerif_C04Route(t *testing.T) {
 				case E3AtUpstreamSpan:
 					// forwarded by the real collector: composition end to end
 					run.Count("end_to_end_checks", 1)
-					c := uint(max(it.Rate, 1))
-					want := c * c04rTraceRate
+					hi, lo := bits.Mul64(uint64(max(it.Rate, 1)), traceRate)
+					if hi != 0 || lo >= 1<<63 {
+						run.Count("end_to_end_not_judged_product_above_2^63", 1)
+						continue
+					}
+					want := uint(lo)
 					fin, _ := c04rInt(o.Ev.Fields[types.MetaRefineryFinalSampleRate])
 					orig, hasOrig := c04rInt(o.Ev.Fields[types.MetaRefineryOriginalSampleRate])
 					switch {
-					case !it.Kept:
+					case !it.Kept && !stressed:
 						// a dropped trace forwarded: C01's subject, not judged here
 					case o.Ev.SampleRate != want:
 						run.Violation("C04/route/end-to-end/"+endpoint+"-"+encName+"/sample-rate-not-client-times-trace-rate/"+input,
-							fmt.Sprintf("event %s sent with rate %v, trace kept at %d: forwarded with SampleRate %d, expected %d", it.ID, it.Rate, c04rTraceRate, o.Ev.SampleRate, want), wit(it, obs))
+							fmt.Sprintf("event %s sent with rate %v, trace kept at %d (stress relief: %v): forwarded with SampleRate %d, expected %d", it.ID, it.Rate, traceRate, stressed, o.Ev.SampleRate, want), wit(it, obs))
 					case uint(fin) != want:
 						run.Violation("C04/route/end-to-end/"+endpoint+"-"+encName+"/final-sample-rate-field-differs", fmt.Sprintf("event %s: SampleRate %d, %s=%v", it.ID, o.Ev.SampleRate, types.MetaRefineryFinalSampleRate, o.Ev.Fields[types.MetaRefineryFinalSampleRate]), wit(it, obs))
 					case it.Rate > 0 && (!hasOrig || orig != it.Rate), it.Rate <= 0 && hasOrig && orig != 1:
@@ -283,6 +349,66 @@ func TestVerif_C04Route(t *testing.T) {
 			}
 			if len(obs) == 0 {
 				run.Count("events_not_observed", 1)
+			}
+		}
+		// the wire: what the real DirectTransmission POSTed for every event handed upstream, decoded independently
+		upstream := map[string]E3Obs{}
+		for _, o := range b.Log.Effects() {
+			if o.Where == E3AtUpstreamSpan || o.Where == E3AtUpstreamEvent {
+				upstream[o.Ev.ID] = o
+			}
+		}
+		if complete && len(upstream) > 0 {
+			if !b.Wire.Await(len(upstream), 5*time.Second) {
+				run.Inconclusive(fmt.Sprintf("case %d: fewer than %d events reached the fake Honeycomb within 5 s", ci, len(upstream)))
+				return
+			}
+			for _, we := range b.Wire.Take() {
+				o, ok := upstream[we.ID]
+				if !ok || we.Problem != "" {
+					run.Count("wire_events_unmatched", 1)
+					continue
+				}
+				if o.Ev.SampleRate >= 1<<63 {
+					run.Count("wire_not_judged_rate_above_2^63", 1) // the batch format carries an int64
+					continue
+				}
+				run.Count("wire_checks", 1)
+				var wireRate uint64
+				numeric := true
+				switch we.Rate.Kind {
+				case KInt:
+					wireRate = uint64(we.Rate.Int)
+				case KUint:
+					wireRate = we.Rate.Uint
+				default:
+					numeric = false
+				}
+				cls := "rate-below-2^32"
+				if o.Ev.SampleRate >= 1<<32 {
+					cls = "rate-at-or-above-2^32"
+					run.Count("wire_checks_rate_at_or_above_2^32", 1)
+				}
+				w := map[string]any{"endpoint": endpoint, "encoding": encName, "handed_to_transmission": o, "on_the_wire": we, "events_in_order": items, "trace_rate": traceRate, "stress_relief": stressed}
+				if !numeric || wireRate != uint64(o.Ev.SampleRate) || (we.Rate.Kind == KInt && we.Rate.Int < 0) {
+					run.Violation("C04/route/wire/samplerate-in-request-body-differs-from-forwarded-rate/"+cls,
+						fmt.Sprintf("event %s was handed to the upstream transmission with SampleRate %d; the POSTed batch carries samplerate %+v", we.ID, o.Ev.SampleRate, we.Rate), w)
+					continue
+				}
+				if o.Where == E3AtUpstreamSpan {
+					fv, ok := we.Data.Get(types.MetaRefineryFinalSampleRate)
+					var f uint64
+					switch fv.Kind {
+					case KInt:
+						f = uint64(fv.Int)
+					case KUint:
+						f = fv.Uint
+					}
+					if !ok || f != wireRate {
+						run.Violation("C04/route/wire/final-sample-rate-in-body-differs-from-samplerate/"+cls,
+							fmt.Sprintf("event %s: samplerate %d on the wire, %s=%+v in its data", we.ID, wireRate, types.MetaRefineryFinalSampleRate, fv), w)
+					}
+				}
 			}
 		}
 		if !complete {
